@@ -7,7 +7,10 @@ C(name, exp) == [c |-> name, e |-> exp]
 Judge(e) ==
   LET bl == IF e.bitlen < 0 THEN 8 * Len(e.m) ELSE e.bitlen IN
   IF bl > 8 * Len(e.m) THEN (IF e.raised = "" THEN <<C("must-refuse", "bit length beyond the data")>> ELSE <<>>)
-  ELSE LET x == Md6Hash(e.d, e.key, e.L, e.r, e.m, bl) IN
+  ELSE LET r == IF e.r >= 0 THEN e.r                                                  \* rounds assigned on the object
+                ELSE IF Len(e.key) > 0 THEN (IF 40 + (e.d \div 4) > 80 THEN 40 + (e.d \div 4) ELSE 80)    \* default (MD6 report 2.4.7): 40 + floor(d/4), at least 80 when keyed
+                ELSE 40 + (e.d \div 4)
+           x == Md6Hash(e.d, e.key, e.L, r, e.m, bl) IN
        IF e.raised # "" THEN <<C("must-not-raise", x)>>
        ELSE (IF e.obs # x THEN <<C("digest", x)>> ELSE <<>>) \o (IF Len(e.obs) # (e.d + 7) \div 8 THEN <<C("digest-length", (e.d + 7) \div 8)>> ELSE <<>>)
 Init == vvTid \in 1..Len(Traces) /\ vvPos = 0 /\ vvBad = 0
